@@ -36,7 +36,8 @@ RULE = ("(i) all 243 styles (9 text x 9 background x 3 intensity) through AnsiWr
         "AnsiWriter<Vec<u8>>; a 288-case subset through child processes (env none / CLICOLOR_FORCE=1 / "
         "NO_COLOR=1, pty and pipe). (iv) patterns WITHOUT a trailing newline (`{m}`, `{h({l} {m})}`, "
         "`{h({l} {m}{n})}`) x 27 environments x target x tty_only x pty/pipe: the bytes must be on the "
-        "stream when append returns. (v) 24 configurations x 4 children: one process with a console appender on EACH "
+        "stream when append returns. The children run with TERM unset / dumb / xterm-256color / vt100 (the terminal type "
+        "is not part of the policy). (v) 24 configurations x 4 children: one process with a console appender on EACH "
         "stream (built in either order) where exactly one of stdout / stderr is a pty: each stream must carry what "
         "a process with only that appender writes. non-trivial = a process-level case or a style with at least one "
         "attribute; distinct = distinct case line")
@@ -273,6 +274,10 @@ def _drain(fds, proc, limit=15.0):
 def run_child(exe, c):
     _, env, target, tty_only, out_tty, err_tty, chunks, lv, msg = c
     e = {"PATH": os.environ.get("PATH", "/usr/bin:/bin")}
+    # the terminal type is not part of the policy: children run with TERM unset / dumb / xterm-256color / vt100
+    term = [None, "dumb", "xterm-256color", "vt100"][(len(_b(msg)) + lv + int(target) + 2 * int(out_tty) + int(err_tty) + len(env[0] or ())) % 4]
+    if term is not None:
+        e["TERM"] = term
     for name, v in zip(ENV_NAMES, env):
         if v:
             e[name] = _b(v[0])
